@@ -57,6 +57,7 @@ func retention(c *evid.Ctx) {
 					{"whatap-x-profiler.log", false, false, 0}, // undated, 8-character last token
 					{"whatap-x-abcdefgh.log", false, false, 0},
 					{"whatap-x-20231332.log", false, false, 0},             // eight digits that are not a date
+					{"whatap-a-20240230.log", false, false, 0},             // an impossible day, sorting before every other name
 					{"whatap-boot-" + ymd(401) + ".log", true, false, 401}, // a directory with a matching name
 					{"unrelated-" + ymd(400) + ".txt", false, false, 400},
 				}
@@ -148,7 +149,7 @@ func classOf(f fileSpec) string {
 		return "directory"
 	case f.dated:
 		return "own-dated"
-	case strings.HasPrefix(f.name, "whatap-x-"):
+	case strings.HasPrefix(f.name, "whatap-x-"), strings.HasPrefix(f.name, "whatap-a-"):
 		return "undated-own-prefix"
 	case strings.HasPrefix(f.name, "whatap"):
 		return "similar-prefix"
@@ -510,7 +511,7 @@ func Run(c *evid.Ctx) {
 	shard.Spawn(c, 16, true)
 	c.Cov["traces_validated_against_impl"] = c.Counter("states")
 	c.Count("distinct_nontrivial", c.Counter("evaluations"))
-	c.Cov["rule"] = "lines/rotation: states = complete schedules of 1-2 logging goroutines, the rotation cycle and a clock thread that carries virtual time across midnight, on an in-memory file system where every file operation is a scheduling point; each execution's files are read back: every line that passed the level and interval gates exactly once, whole, per-thread order, file names, new-day lines after a completed cycle in the new file; retention: every 1- and 2-file directory, the full 12-name directory and its 12 one-less variants x 3 clocks x 3 keep-days x rotation on/off; read window: 4 sizes x 6 end positions x 7 lengths x 7 names"
+	c.Cov["rule"] = "lines/rotation: states = complete schedules of 1-2 logging goroutines, the rotation cycle and a clock thread that carries virtual time across midnight, on an in-memory file system where every file operation is a scheduling point; each execution's files are read back: every line that passed the level and interval gates exactly once, whole, per-thread order, file names, new-day lines after a completed cycle in the new file; retention: every 1- and 2-file directory, the full 13-name directory and its 13 one-less variants x 3 clocks x 3 keep-days x rotation on/off; read window: 4 sizes x 6 end positions x 7 lengths x 7 names"
 	c.Assume("the file system is an in-memory model (append-only writes, a write to a closed file fails); the 10 s background loop is replaced by a cycle thread calling the same cycle function")
 	c.Assume("keep-days <= 0 disables retention (not judged)")
 }
